@@ -29,7 +29,7 @@ UNIT = {
         (AR, [IMPL, 'fn assign_variable'], {'ret': 'r', 'wrapper': WRAP,
             'token_rewrites': [
                 ('let code = Rc :: new ( Code { value : self . expression . to_string ( ) . into ( ) , start_line_number : 1 . try_into ( ) . unwrap ( ) , source : Source :: Arith { original : self . expansion_location . clone ( ) , } . into ( ) , } ) ;', 'let code = verif_code(self.expression, self.expansion_location);'),
-                ('self . env . get_or_create_variable ( name , Global ) . assign ( value , Location { code , range } )', 'verif_map_assign_error(self.env.get_or_create_variable(name, Global).assign(value, verif_location(code, range)), name)'),
+                ('self . env . get_or_create_variable ( name , $sc ) . assign ( value , Location { code , range } )', 'verif_map_assign_error(self.env.get_or_create_variable(name, $sc).assign(value, verif_location(code, range)), name)'),
                 ('. map ( drop ) . map_err ( | e | AssignReadOnlyError { name : name . to_owned ( ) , new_value : e . new_value , read_only_location : e . read_only_location , vacancy : None , } )', ''),
             ],
             'ensures': [
